@@ -589,6 +589,7 @@ type c11Section struct {
 }
 
 type c11Layout struct {
+	maxCount uint64 // largest system-entry / message count claimed so far
 	sections []c11Section
 	fields   []int // offsets of length / count / checkpoint / seq fields
 	ok       bool
@@ -632,6 +633,9 @@ func c11Parse(s []byte) c11Layout {
 		nSys, ok := uv()
 		if !ok {
 			return l
+		}
+		if nSys > l.maxCount {
+			l.maxCount = nSys
 		}
 		for j := uint64(0); j < nSys; j++ {
 			if !skipBytes() || !skipBytes() {
@@ -1034,6 +1038,19 @@ func c11MessageCase(r *verifkit.Run, rng *rand.Rand, ci int, dir string, nRandom
 		reader := fi%3 != 2
 		if f.forged && fi%2 == 0 {
 			reader = true
+		}
+		if f.forged && !reader {
+			// ImportBackupSnapshot([]byte) sizes a slice from the stream's
+			// system-entry count without an upper bound (the reader variant
+			// caps it at 1<<20): a checksum-valid forged count makes the
+			// process die with "fatal error: out of memory", which no monitor
+			// survives. Such streams go to the bounded variant; the hazard is
+			// recorded, not exercised.
+			if claimed := c11Parse(f.body).maxCount; claimed > 1<<20 {
+				reader = true
+				r.Count("fault.forged_unbounded_system_count_routed_to_reader", 1)
+				r.Note("forged_unbounded_system_count", map[string]any{"class": f.class, "detail": f.detail, "claimed_system_entries": claimed, "stream_len": len(f.body)})
+			}
 		}
 		variant := map[bool]string{true: "reader", false: "bytes"}[reader]
 		wit := map[string]any{"shape": shape, "class": f.class, "detail": f.detail, "variant": variant, "stream_len": len(s)}
